@@ -211,3 +211,113 @@ def reads_field(body, adt_sub, field):
         elif t['k'] == 'switch' and op_place(t['discr']):
             scan(op_place(t['discr']), b, t.get('span'))
     return out
+
+
+# ---- interprocedural origin of option values ------------------------------------------------------------------------------------
+def place_reads_field(place, adt_sub, field):
+    return any(isinstance(e, dict) and e.get('f') == field and adt_sub in e.get('adt', '') for e in place['p'])
+
+
+def local_from_field(mir, body, local, adt_sub, field, depth=0, seen=None):
+    """does the value in `local` derive (through copies, refs, as_ref-like calls and parameter passing from crate callers) from a read of
+    field `field` of an ADT whose path contains `adt_sub` (e.g. WriteOptions.rustfmt)?"""
+    if seen is None:
+        seen = set()
+    key = (body.name, local)
+    if key in seen or depth > 4:
+        return False
+    seen.add(key)
+    sl, calls, stmts = body.backward_slice([local], through_calls=True)
+    for _, st in stmts:
+        for p in body.rvalue_places(st['rv']):
+            if place_reads_field(p, adt_sub, field):
+                return True
+    for _, c in calls:
+        for a in c['args']:
+            if op_place(a) and place_reads_field(op_place(a), adt_sub, field):
+                return True
+    # parameters: look at the call sites in the crate
+    params = [l for l in sl if 1 <= l <= body.arg_count]
+    for pl in params:
+        sites = [(cb, t) for cb in mir.bodies.values() for _, t in cb.calls() if cname(t) == body.name]
+        if not sites:
+            continue
+        ok_all = True
+        for cb, t in sites:
+            a = t['args'][pl - 1] if pl - 1 < len(t['args']) else None
+            if a is None:
+                ok_all = False
+                break
+            if op_place(a) and place_reads_field(op_place(a), adt_sub, field):
+                continue
+            al = op_local(a)
+            if al is None or not local_from_field(mir, cb, al, adt_sub, field, depth + 1, seen):
+                ok_all = False
+                break
+        if ok_all:
+            return True
+    return False
+
+
+def local_is_field_value(mir, body, local, adt_sub, field, depth=0, seen=None):
+    """the value in `local` IS (a copy / reference / discriminant / as_ref-style view of) field `field` of the ADT - not merely something
+    computed from it; parameters are resolved through all crate call sites"""
+    if seen is None:
+        seen = set()
+    key = (body.name, local)
+    if key in seen or depth > 4:
+        return False
+    seen.add(key)
+    neg, calls, places = chain_of(body, local)
+    # places are canon roots (local, projection string)
+    for r in places:
+        if r and ('.' + field) in r[1] and any(adt_sub in ty for ty in [body.locals[r[0]]]):
+            return True
+    # direct place reads along the chain
+    cur = local
+    hops = 0
+    while cur is not None and hops < 12:
+        hops += 1
+        ds = [d for d in body.defs().get(cur, []) if d[1] == 'call' or not d[2]['lhs']['p']]
+        if len(ds) != 1:
+            break
+        b, kind, x = ds[0]
+        if kind == 'call':
+            if not (method(cname(x)) in TRANSPARENT or cname(x).endswith('::branch')):
+                break
+            nxt = None
+            for a in x['args']:
+                if op_place(a):
+                    if place_reads_field(op_place(a), adt_sub, field):
+                        return True
+                    nxt = op_local(a)
+                    break
+            cur = nxt
+        else:
+            rv = x['rv']
+            ps = body.rvalue_places(rv)
+            if any(place_reads_field(p_, adt_sub, field) for p_ in ps):
+                return True
+            if rv['rk'] in ('use', 'ref', 'discriminant', 'cast') and ps:
+                cur = ps[0]['l']
+            elif rv['rk'] == 'unop' and ps:
+                cur = ps[0]['l']
+            else:
+                break
+    if cur is not None and 1 <= cur <= body.arg_count:
+        sites = [(cb, t) for cb in mir.bodies.values() for _, t in cb.calls() if cname(t) == body.name]
+        if sites:
+            ok_all = True
+            for cb, t in sites:
+                a = t['args'][cur - 1] if cur - 1 < len(t['args']) else None
+                if a is None:
+                    ok_all = False
+                    break
+                if op_place(a) and place_reads_field(op_place(a), adt_sub, field):
+                    continue
+                al = op_local(a)
+                if al is None or not local_is_field_value(mir, cb, al, adt_sub, field, depth + 1, seen):
+                    ok_all = False
+                    break
+            return ok_all
+    return False
